@@ -480,3 +480,95 @@ pub fn gen_load(prop: &'static str, rng: &mut Rng, _run: u64, _thorough: bool) -
     let _ = Position::default();
     t
 }
+
+// ---------------------------------------------------------------- single-fault enumeration
+
+/// Faults enumerated per base file: every truncation length, every position x {flip bit 0, flip bit 7,
+/// 0x00, 0xFF, 0x1A}, every aligned 16-byte run zeroed.
+pub const ENUM_QUOTA: u64 = 32_768;
+pub const ENUM_MAX_LEN: usize = 5_200;
+
+pub fn enum_space(len: usize) -> u64 {
+    (len as u64 + 1) + 5 * len as u64 + (len as u64).div_ceil(16)
+}
+
+/// The `f`-th single fault applied to `bytes`; None beyond the space.
+pub fn enum_fault(bytes: &mut Vec<u8>, f: u64) -> Option<String> {
+    let len = bytes.len() as u64;
+    if f <= len {
+        bytes.truncate(f as usize);
+        return Some(format!("short keep={f} of={len}"));
+    }
+    let f = f - (len + 1);
+    if f < 5 * len {
+        let at = (f / 5) as usize;
+        let ann = match f % 5 {
+            0 => {
+                bytes[at] ^= 1;
+                "bitrot"
+            }
+            1 => {
+                bytes[at] ^= 0x80;
+                "bitrot"
+            }
+            2 => {
+                bytes[at] = 0;
+                "overwrite"
+            }
+            3 => {
+                bytes[at] = 0xff;
+                "overwrite"
+            }
+            _ => {
+                bytes[at] = 0x1a;
+                "overwrite"
+            }
+        };
+        return Some(format!("{ann} at={at} variant={}", f % 5));
+    }
+    let f = f - 5 * len;
+    if f < len.div_ceil(16) {
+        let at = (f * 16) as usize;
+        for i in at..(at + 16).min(len as usize) {
+            bytes[i] = 0;
+        }
+        return Some(format!("lost_sector at={at} len=16"));
+    }
+    None
+}
+
+/// Enumeration leg of C02: base file `b` (a function of the seed and b only) with its `f`-th single fault.
+pub fn gen_load_enum(prop: &'static str, seed: u64, b: u64, f: u64) -> Trace {
+    let mut t = Trace::new(prop, "load");
+    t.cfg.clock_ms = 1_700_000_000_000;
+    let mut rng = Rng::for_run(seed, "C02-base", b);
+    let mut tries = 0;
+    let (entry, name, mut bytes) = loop {
+        let x = base_file(&mut rng);
+        if x.2.len() <= ENUM_MAX_LEN || tries > 20 {
+            break x;
+        }
+        tries += 1;
+    };
+    bytes.truncate(ENUM_MAX_LEN);
+    let ext = name.rsplit_once('.').map_or("none", |x| x.1).to_string();
+    match enum_fault(&mut bytes, f) {
+        Some(ann) => {
+            t.labels.push(format!("load_class={entry}/{ext}/enum"));
+            t.labels.push(format!("enum_base={b}"));
+            t.faults.push(ann);
+        }
+        None => {
+            // beyond this base file's single-fault space: nothing to do
+            t.labels.push("enum_beyond_space=1".into());
+            return t;
+        }
+    }
+    t.labels.push(format!("target=load:{entry}/{ext}"));
+    t.events.push(Ev::Load {
+        entry,
+        name,
+        hex: to_hex(&bytes),
+    });
+    t
+}
